@@ -182,6 +182,13 @@ impl Prop for BitsProp {
                 }
             }
         }
+        // just above 2^21 bits, half / mostly ones (layout parameters derived from the length)
+        for (j, &kind) in self.kinds.iter().enumerate() {
+            for (i, (n, num)) in [((1usize << 21) + 1, 32768u32), ((1usize << 21) + 130, 65536 - 40)].into_iter().enumerate() {
+                let seed = 900 + (j * 4 + i) as u64;
+                v.push(BitsCase { kind, bvhow: BvHow::Bools, wrap: WrapHow::New, content: BitContent::Density { n, num, seed }, plan_seed: seed });
+            }
+        }
         v
     }
     fn simplify(&self, c: &BitsCase) -> Vec<BitsCase> {
